@@ -419,6 +419,43 @@ impl BufReadSpecImpl for std::io::Empty {
 #[verifier::external_body]
 pub fn io_error_stub() -> std::io::Error { std::io::Error::new(std::io::ErrorKind::Other, "") }
 
+// ---- R20: allocation sites.  Every `vec![e; n]`, `Vec::with_capacity(n)`, `resize(n, ..)`, `reserve(n)` of the extracted
+// code goes through one of these wrappers.  Their bodies are the original calls and are VERIFIED against vstd's own
+// specifications; the only thing they add is the obligation `alloc_ok(n)`: an allocation is either bounded by a constant
+// of the format (4 Mi elements: the largest probability table is 2^12 * 0x300 entries) or justified by data the decoder
+// already holds (`axiom_alloc_held`, the one trusted statement: `held` is named by the contract author and must be a
+// count of bytes actually consumed or produced).  C07: "never allocates memory out of proportion to the bytes it
+// actually consumed and produced - a header announcing a huge dictionary or size costs nothing until data arrives".
+pub mod mem {
+    use vstd::prelude::*;
+    pub open spec fn alloc_const_max() -> nat { 0x40_0000 }
+    pub uninterp spec fn alloc_justified(n: nat) -> bool;
+    pub open spec fn alloc_ok(n: nat) -> bool { n <= alloc_const_max() || alloc_justified(n) }
+    #[verifier::external_body]
+    pub proof fn axiom_alloc_held(n: nat, held: nat)
+        requires n <= 2 * held + alloc_const_max()
+        ensures alloc_justified(n)
+    {}
+    pub fn vec_filled<T: Clone>(elem: T, n: usize) -> (v: Vec<T>)
+        requires alloc_ok(n as nat),                                           // [ALLOC.bounded C07]
+        ensures v@.len() == n, forall|i: int| 0 <= i < n ==> vstd::pervasive::cloned(elem, #[trigger] v@[i]),
+    { vec![elem; n] }
+    pub fn vec_resize<T: Clone>(v: &mut Vec<T>, n: usize, value: T)
+        requires alloc_ok(n as nat),                                           // [ALLOC.bounded C07]
+        ensures final(v)@.len() == n,
+            forall|i: int| 0 <= i < n && i < old(v)@.len() ==> final(v)@[i] == old(v)@[i],
+            forall|i: int| old(v)@.len() <= i < n ==> vstd::pervasive::cloned(value, #[trigger] final(v)@[i]),
+    { v.resize(n, value) }
+    pub fn vec_with_capacity<T>(n: usize) -> (v: Vec<T>)
+        requires alloc_ok(n as nat),                                           // [ALLOC.bounded C07]
+        ensures v@.len() == 0,
+    { Vec::with_capacity(n) }
+    pub fn vec_reserve<T>(v: &mut Vec<T>, n: usize)
+        requires alloc_ok(n as nat), old(v)@.len() + n <= isize::MAX,          // [ALLOC.bounded C07]
+        ensures final(v)@ == old(v)@,
+    { v.reserve(n) }
+}
+
 // ---- the frame-relation axioms (in their own module so that every module, including the crate root,
 // can `broadcast use` them) ---------------------------------------------------------------------
 pub mod ax {
